@@ -241,6 +241,237 @@ def ex_const(e):
     return ex(e, {})
 
 
+
+# ----------------------------------------------------------------------------------------------
+# purity programs (C17): constructors of the aggregate functions -> alias/fresh/write programs
+# ----------------------------------------------------------------------------------------------
+VIEW_ATTRS = {"T", "real", "imag", "flat", "base"}
+VIEW_METHODS = {"reshape", "ravel", "view", "squeeze", "transpose", "swapaxes", "newbyteorder", "diagonal"}
+MUTATING_METHODS = {"sort", "fill", "put", "resize", "partition", "byteswap", "itemset", "setflags", "setfield"}
+ALIAS_FUNCS = {"asarray", "asanyarray", "ascontiguousarray", "asfortranarray", "atleast_1d", "atleast_2d", "ravel",
+               "reshape", "squeeze", "transpose"}
+
+
+def root_var(e):
+    """the variable an l-value / view expression is rooted in, or None"""
+    if isinstance(e, ast.Name):
+        return e.id
+    if isinstance(e, ast.Attribute):
+        if isinstance(e.value, ast.Name) and e.value.id == "self":
+            return "self." + e.attr
+        if e.attr in VIEW_ATTRS:
+            return root_var(e.value)
+        return None
+    if isinstance(e, ast.Subscript):
+        return root_var(e.value)
+    return None
+
+
+def classify(e):
+    """('alias', var) or ('fresh',)"""
+    if isinstance(e, ast.Name):
+        return ("alias", e.id)
+    if isinstance(e, ast.Attribute):
+        if isinstance(e.value, ast.Name) and e.value.id == "self":
+            return ("alias", "self." + e.attr)
+        if e.attr in VIEW_ATTRS:
+            return classify(e.value)
+        return ("fresh",)
+    if isinstance(e, ast.Subscript):
+        return classify(e.value)
+    if isinstance(e, ast.Call):
+        f = e.func
+        if isinstance(f, ast.Attribute):
+            if isinstance(f.value, ast.Name) and f.value.id in ("numpy", "np"):
+                if f.attr in ALIAS_FUNCS and e.args:
+                    return classify(e.args[0])
+                return ("fresh",)
+            if f.attr in VIEW_METHODS:
+                return classify(f.value)
+            if f.attr == "astype":
+                for kw in e.keywords:
+                    if kw.arg == "copy" and not (isinstance(kw.value, ast.Constant) and kw.value.value is True):
+                        return classify(f.value)
+                return ("fresh",)
+            return ("fresh",)
+        return ("fresh",)
+    if isinstance(e, ast.IfExp):
+        a, b = classify(e.body), classify(e.orelse)
+        if a[0] == "alias" and b[0] == "alias" and a[1] != b[1]:
+            raise Unsupported("conditional expression aliasing two different variables")
+        return a if a[0] == "alias" else b
+    return ("fresh",)
+
+
+class PurityTranslator:
+    def __init__(self, helpers):
+        self.helpers = helpers       # name -> FunctionDef (inlined at call sites), e.g. as_separate_validity
+        self.depth = 0
+
+    def assign(self, target, value, path, rename):
+        """instructions for `target = value` (single target expression)"""
+        rn = lambda v: rename.get(v, v)
+        if isinstance(target, ast.Subscript):
+            r = root_var(target)
+            if r is None:
+                raise Unsupported("store through %s" % ast.dump(target)[:60])
+            return [[("write", rn(r))]]
+        name = root_var(target) if isinstance(target, (ast.Name, ast.Attribute)) else None
+        if name is None:
+            raise Unsupported("assignment target %s" % ast.dump(target)[:60])
+        c = classify(value)
+        if c[0] == "alias":
+            return [[("alias", rn(name), rn(c[1]))]]
+        return [[("fresh", rn(name))]]
+
+    def inline(self, fn, args, targets, rename_out):
+        """all paths of helper `fn` applied to `args`, binding the returned tuple to `targets`"""
+        self.depth += 1
+        pre = "%s%d." % (fn.name, self.depth)
+        rename = {a.arg: pre + a.arg for a in fn.args.args}
+        for n in ast.walk(fn):
+            if isinstance(n, ast.Name) and isinstance(n.ctx, ast.Store):
+                rename[n.id] = pre + n.id
+        start = []
+        for a, v in zip(fn.args.args, args):
+            c = classify(v)
+            start.append(("alias", rename[a.arg], rename_out.get(c[1], c[1])) if c[0] == "alias" else ("fresh", rename[a.arg]))
+        out = []
+        for path, ret in self.block(fn.body, [list(start)], rename, want_return=True):
+            if ret is None:
+                continue
+            vals = ret.elts if isinstance(ret, ast.Tuple) else [ret]
+            if len(vals) != len(targets):
+                raise Unsupported("helper %s returns %d values for %d targets" % (fn.name, len(vals), len(targets)))
+            p = list(path)
+            for t, v in zip(targets, vals):
+                c = classify(v)
+                tn = root_var(t)
+                if tn is None:
+                    raise Unsupported("target")
+                tn = rename_out.get(tn, tn)
+                p.append(("alias", tn, rename.get(c[1], c[1])) if c[0] == "alias" else ("fresh", tn))
+            out.append(p)
+        return out
+
+    def block(self, stmts, paths, rename, want_return=False):
+        """returns list of (path, return_expr|None) when want_return else list of paths"""
+        live = [(p, None, False) for p in paths]          # (instrs, ret, finished)
+        for s in stmts:
+            nxt = []
+            for p, ret, done in live:
+                if done:
+                    nxt.append((p, ret, done))
+                    continue
+                for np_, nret, ndone in self.stmt(s, p, rename):
+                    nxt.append((np_, nret, ndone))
+            live = nxt
+            if len(live) > 256:
+                raise Unsupported("too many paths")
+        if want_return:
+            return [(p, r) for p, r, d in live]
+        return [p for p, r, d in live]
+
+    def stmt(self, s, p, rename):
+        rn = lambda v: rename.get(v, v)
+        if isinstance(s, (ast.Pass, ast.Import, ast.ImportFrom, ast.Global, ast.Assert)):
+            return [(p, None, False)]
+        if isinstance(s, ast.Expr):
+            v = s.value
+            if isinstance(v, ast.Constant):
+                return [(p, None, False)]
+            if isinstance(v, ast.Call):
+                extra = []
+                if isinstance(v.func, ast.Attribute) and v.func.attr in MUTATING_METHODS:
+                    r = root_var(v.func.value)
+                    if r is not None:
+                        extra.append(("write", rn(r)))
+                for kw in v.keywords:
+                    if kw.arg == "out":
+                        r = root_var(kw.value)
+                        if r is not None:
+                            extra.append(("write", rn(r)))
+                return [(p + extra, None, False)]
+            return [(p, None, False)]
+        if isinstance(s, ast.Return):
+            return [(p, s.value, True)]
+        if isinstance(s, ast.Raise):
+            return []                                   # this path constructs nothing
+        if isinstance(s, ast.AugAssign):
+            r = root_var(s.target)
+            if r is None:
+                raise Unsupported("augmented assignment target")
+            return [(p + [("write", rn(r))], None, False)]
+        if isinstance(s, ast.Assign):
+            if len(s.targets) != 1:
+                raise Unsupported("chained assignment")
+            t, v = s.targets[0], s.value
+            if isinstance(t, ast.Tuple):
+                if isinstance(v, ast.Call) and isinstance(v.func, ast.Name) and v.func.id in self.helpers:
+                    return [(p + q, None, False) for q in self.inline(self.helpers[v.func.id], v.args, t.elts, rename)]
+                if isinstance(v, ast.Name):              # `arr, validity = arr`: components of the caller's tuple
+                    return [(p + [("alias", rn(root_var(e)), rn(v.id)) for e in t.elts], None, False)]
+                if isinstance(v, ast.Tuple) and len(v.elts) == len(t.elts):
+                    q = list(p)
+                    for e, x in zip(t.elts, v.elts):
+                        q += self.assign(e, x, q, rename)[0]
+                    return [(q, None, False)]
+                raise Unsupported("tuple assignment from %s" % ast.dump(v)[:60])
+            return [(p + self.assign(t, v, p, rename)[0], None, False)]
+        if isinstance(s, ast.If):
+            out = []
+            for branch in (s.body, s.orelse):
+                for q, r in self.block(branch, [list(p)], rename, want_return=True):
+                    out.append((q, r, r is not None))
+            return out
+        if isinstance(s, ast.With):
+            return [(q, r, r is not None) for q, r in self.block(s.body, [list(p)], rename, want_return=True)]
+        if isinstance(s, (ast.For, ast.While)):
+            # one pass over the body (no constructor relies on loop-carried aliasing)
+            out = [(p, None, False)]
+            for q, r in self.block(s.body, [list(p)], rename, want_return=True):
+                out.append((q, r, r is not None))
+            return out
+        raise Unsupported("statement %s" % type(s).__name__)
+
+
+def lean_str(x):
+    return '"' + x.replace('"', "'") + '"'
+
+
+def gen_purity(sources):
+    progs = []
+    for modname, src in sources:
+        tree = ast.parse(src)
+        helpers = {n.name: n for n in tree.body if isinstance(n, ast.FunctionDef) and n.name == "as_separate_validity"}
+        for cls in tree.body:
+            if not isinstance(cls, ast.ClassDef):
+                continue
+            for fn in cls.body:
+                if isinstance(fn, ast.FunctionDef) and fn.name == "__init__":
+                    inputs = [a.arg for a in fn.args.args if a.arg != "self"]
+                    tr = PurityTranslator(helpers)
+                    paths = tr.block(fn.body, [[]], {})
+                    seen = []
+                    for path in paths:
+                        if path not in seen:
+                            seen.append(path)
+                    for k, path in enumerate(seen):
+                        progs.append(("%s.%s.__init__#%d" % (modname, cls.name, k), inputs, path))
+    def instr(i):
+        if i[0] == "alias":
+            return ".alias %s %s" % (lean_str(i[1]), lean_str(i[2]))
+        return ".%s %s" % (i[0], lean_str(i[1]))
+    body = ",\n".join("  (%s, [%s], [%s])" % (lean_str(n), ", ".join(lean_str(v) for v in ins),
+                                              ", ".join(instr(i) for i in path)) for n, ins, path in progs)
+    return ("import CatiiModel.Store\n"
+            "-- GENERATED by tools/translate.py from src/catii/ffuncs.py and xfuncs.py (every __init__ of an aggregate\n"
+            "-- function class, one program per control-flow path, as_separate_validity inlined); do not edit\n"
+            "namespace Catii.Gen\nopen Catii.Store\n\n"
+            "/-- (constructor#path, caller-owned inputs, alias/fresh/write program) -/\n"
+            "def purityProgs : List (String × List Var × List Instr) := [\n%s\n]\n\nend Catii.Gen\n" % body), len(progs)
+
+
 def write_if_changed(path, text):
     try:
         if open(path, encoding="utf-8").read() == text:
@@ -266,6 +497,12 @@ def main():
                          gen_consts(rd("indxio.py"), rd("iindexes.py"), rd("ccubes.py"), rd("xcubes.py")))
     except (Unsupported, StopIteration, SyntaxError, KeyError) as e:
         print("translate: INDX tables/constants outside translatable subset: %s" % e, file=sys.stderr)
+        status = 3
+    try:
+        text, n = gen_purity([("ffuncs", rd("ffuncs.py")), ("xfuncs", rd("xfuncs.py"))])
+        write_if_changed(os.path.join(GEN, "Purity.lean"), text)
+    except (Unsupported, SyntaxError, KeyError) as e:
+        print("translate: aggregate constructors outside translatable subset: %s" % e, file=sys.stderr)
         status = 3
     return status
 
